@@ -180,7 +180,10 @@ class TheDict(MutableMapping):
         raise TypeError
 
     def __iter__(self):
-        current = get_next_key(self.fd, self.key.stack)
+        try:
+            current = get_next_key(self.fd, self.key.stack)
+        except StopIteration:
+            return
         while True:
             ret = type(self.key)()
             ret.data = current
